@@ -2,7 +2,7 @@
    Constants are represented by the type their value reports (V := ty, val.type_() = Ret). *)
 From Coq Require Import ZArith NArith List Bool Arith.
 Import ListNotations.
-From HV Require Export lib.Harness model.Types model.TyEq model.Ops spec.OpsS.
+From HV Require Export lib.Harness model.Types model.TyEq model.Ops spec.OpsS model.OpsStore spec.OpsStoreS.
 Local Open Scope Z_scope.
 
 Definition opT := op ty.
@@ -11,6 +11,17 @@ Definition ct (t : ty) : option ty := Some t.
 
 (* observed signature: rows and extension requirements (sorted by the harness) *)
 Definition sigobs := (list ty * list ty * list name)%type.
+
+(* one event of a history on ONE Hugr (harness: raw add_node / delete_node / `hugr[n].op = ..` / in-place
+   mutation, or a builder program); after every step of the history the harness reads back the operation of
+   every live node and queries it again *)
+Inductive hev :=
+| HPut (n : Z) (o : result opT)          (* index n now holds this operation (new node, op assigned / completed) *)
+| HDel (n : Z)                           (* index n no longer holds a node *)
+(* hugr[n].op.port_kind / .port_type, Hugr.port_kind / Hugr.port_type at port (n, d, z) *)
+| HPort (n : Z) (d : dir) (z : Z) (k : result kind) (t : result ty) (hk : result kind) (ht : result (option ty))
+(* hugr[n].op.outer_signature() / .inner_signature() / .num_out *)
+| HSig (n : Z) (outer inner : result sigobs) (nout : result Z).
 
 Inductive case :=
 (* construction of Call (true) / LoadFunc (false): resulting attributes or the exception *)
@@ -22,7 +33,9 @@ Inductive case :=
 | CPort (o : result opT) (d : dir) (z : Z) (k : result kind) (t : result ty) (hk : result kind)
         (ht : result (option ty))
 (* Conditional.nth_inputs(n) / DataflowBlock.nth_outputs(n) *)
-| CNth (o : result opT) (n : Z) (ins outs : result (list ty)).
+| CNth (o : result opT) (n : Z) (ins outs : result (list ty))
+(* a history of one Hugr with the answers observed after each step *)
+| CHist (l : list hev).
 
 (* exception classes are not part of the property: any exception equals any exception *)
 Definition res_eqv {A B} (eqb : A -> B -> bool) (a : result A) (b : result B) : bool :=
@@ -41,8 +54,34 @@ Definition f_rows (f : functy) : list ty * list ty := (f_in f, f_out f).
 Definition functy_eqv (a b : functy) : bool := ty_eqv (fty a) (fty b).
 
 (* ---- correspondence: the implementation's observation equals the model's output ---- *)
+(* an answer of the node store (None = KeyError: the index holds no node) against an observed answer *)
+Definition opt_eqv {A B} (eqb : A -> B -> bool) (a : result A) (m : option (result B)) : bool :=
+  match m with Some b => res_eqv eqb a b | None => raised a end.
+
+(* histories: the model's node store (model/OpsStore.v) is run along the events; every observation is compared
+   with the store's answer at that moment *)
+Fixpoint corr_hist (s : store ty) (l : list hev) : bool :=
+  match l with
+  | [] => true
+  | HPut n (Ret o) :: r => corr_hist (apply s (SPut n o)) r
+  | HPut n (Raise _) :: r => false          (* the harness only writes operations it could construct *)
+  | HDel n :: r => corr_hist (apply s (SDel n)) r
+  | HPort n d z k t hk ht :: r =>
+      opt_eqv kind_eqv k (store_port_kind vt s n d z) &&
+      opt_eqv ty_eqv t (store_op_port_type s n d z) &&
+      opt_eqv kind_eqv hk (store_port_kind vt s n d z) &&
+      opt_eqv (option_eqb ty_eqv) ht (store_port_type vt s n d z) &&
+      corr_hist s r
+  | HSig n outer inner nout :: r =>
+      opt_eqv (fun x f => rows_eqv (obs_rows x) (f_rows f)) outer (store_outer_sig s n) &&
+      opt_eqv (fun x f => rows_eqv (obs_rows x) (f_rows f)) inner (store_inner_sig s n) &&
+      opt_eqv Z.eqb nout (store_num_out s n) &&
+      corr_hist s r
+  end.
+
 Definition corr (c : case) : bool :=
   match c with
+  | CHist l => corr_hist [] l
   | CNew call sig inst targs obs =>
       let m := if call then call_new sig inst targs else loadfunc_new sig inst targs in
       res_eqv (fun (x : polyfunc * functy * nat) (mo : opT) =>
@@ -90,8 +129,75 @@ Definition mon_kind (sp : pspec) (k : result kind) : bool :=
   | Unspecified => true
   end.
 
+Definition mon_port (o : opT) (d : dir) (z : Z) (k : result kind) (t : result ty) (hk : result kind)
+           (ht : result (option ty)) : bool :=
+  let sp := spec_port_kind ct o d z in
+  mon_kind sp k && mon_kind sp hk &&
+  (* op.port_type (only the DataflowOp classes have the method) *)
+  match sp with
+  | Port (ValueKind t0) => no_method t || res_eqv ty_eqv t (Ret t0)
+  | Port _ | NoPort => raised t
+  | Unspecified => true
+  end &&
+  (* Hugr.port_type: the type of a value port, no type otherwise; on value INPUT ports "no type" is
+     tolerated (the property only speaks about value outputs) *)
+  match sp with
+  | Port (ValueKind t0) =>
+      match d with
+      | Out => res_eqv (option_eqb ty_eqv) ht (Ret (Some t0))
+      | In => res_eqv (option_eqb ty_eqv) ht (Ret (Some t0)) || res_eqv (option_eqb ty_eqv) ht (Ret None)
+      end
+  | Port _ | NoPort => match ht with Ret (Some _) => false | _ => true end
+  | Unspecified => true
+  end &&
+  (* the type reported for a value output port equals the payload of that port's kind *)
+  match d, hk with
+  | Out, Ret (ValueKind t0) => res_eqv (option_eqb ty_eqv) ht (Ret (Some t0))
+  | _, _ => true
+  end.
+
+(* signatures and output count of the operation a node holds (histories; for Call, which has no
+   outer_signature(), only the output count) *)
+Definition mon_sig3 (o : opT) (outer inner : result sigobs) (nout : result Z) : bool :=
+  match spec_sig o with
+  | Some s => if is_call o then true else res_eqv (fun x y => rows_eqv (obs_rows x) y) outer (Ret s)
+  | None => true
+  end &&
+  match spec_inner_sig o with
+  | Some s => res_eqv (fun x y => rows_eqv (obs_rows x) y) inner (Ret s)
+  | None => true
+  end &&
+  match spec_num_out o with
+  | Some n => res_eqv Z.eqb nout (Ret (Z.of_nat n))
+  | None => true
+  end.
+
+(* histories: the operation the specification is asked about is the one the LAST event touching the index put
+   there (spec/OpsStoreS.v, [last_touch] on the events read backwards -- not the model's store); an index
+   without a node gives no answer *)
+Definition cur_op (rl : list (sstep ty)) (n : Z) : option opT :=
+  match last_touch rl n with Some (SPut _ o) => Some o | _ => None end.
+Fixpoint mon_hist (rl : list (sstep ty)) (l : list hev) : bool :=
+  match l with
+  | [] => true
+  | HPut n (Ret o) :: r => mon_hist (SPut n o :: rl) r
+  | HPut n (Raise _) :: r => true
+  | HDel n :: r => mon_hist (SDel n :: rl) r
+  | HPort n d z k t hk ht :: r =>
+      match cur_op rl n with
+      | Some o => mon_port o d z k t hk ht
+      | None => raised k && raised t && raised hk && raised ht
+      end && mon_hist rl r
+  | HSig n outer inner nout :: r =>
+      match cur_op rl n with
+      | Some o => mon_sig3 o outer inner nout
+      | None => raised outer && raised inner && raised nout
+      end && mon_hist rl r
+  end.
+
 Definition mon (c : case) : bool :=
   match c with
+  | CHist l => mon_hist [] l
   | CNew call sig inst targs obs =>
       match obs with
       | Raise _ => true
@@ -128,31 +234,7 @@ Definition mon (c : case) : bool :=
       | Some n => res_eqv Z.eqb nout (Ret (Z.of_nat n))
       | None => true
       end
-  | CPort (Ret o) d z k t hk ht =>
-      let sp := spec_port_kind ct o d z in
-      mon_kind sp k && mon_kind sp hk &&
-      (* op.port_type (only the DataflowOp classes have the method) *)
-      match sp with
-      | Port (ValueKind t0) => no_method t || res_eqv ty_eqv t (Ret t0)
-      | Port _ | NoPort => raised t
-      | Unspecified => true
-      end &&
-      (* Hugr.port_type: the type of a value port, no type otherwise; on value INPUT ports "no type" is
-         tolerated (the property only speaks about value outputs) *)
-      match sp with
-      | Port (ValueKind t0) =>
-          match d with
-          | Out => res_eqv (option_eqb ty_eqv) ht (Ret (Some t0))
-          | In => res_eqv (option_eqb ty_eqv) ht (Ret (Some t0)) || res_eqv (option_eqb ty_eqv) ht (Ret None)
-          end
-      | Port _ | NoPort => match ht with Ret (Some _) => false | _ => true end
-      | Unspecified => true
-      end &&
-      (* the type reported for a value output port equals the payload of that port's kind *)
-      match d, hk with
-      | Out, Ret (ValueKind t0) => res_eqv (option_eqb ty_eqv) ht (Ret (Some t0))
-      | _, _ => true
-      end
+  | CPort (Ret o) d z k t hk ht => mon_port o d z k t hk ht
   | CNth (Ret o) n ins outs =>
       if n <? 0 then true
       else
